@@ -158,6 +158,24 @@ static Verdict runF(const F &c) {
   for (auto &v : ins2) PBT_CHECK(vd, cCheck(m.f, v), "merged filter lost a value of the destination");
   sbbf::Filter rm(sz); for (auto &v : ins) rm.insert(refHash(v)); for (auto &v : ins2) rm.insert(refHash(v));
   PBT_CHECK(vd, memcmp(carquet_bloom_filter_data(m.f), rm.bytes.data(), sz) == 0, "merged filter is not the union of the two filters");
+  // merge chains (row-group filters -> file filter -> dataset filter): a filter filled only by merges is itself merged on;
+  // merging an empty filter changes nothing; merging a filter a second time changes nothing
+  { FH acc{carquet_bloom_filter_create(sz)}, top{carquet_bloom_filter_create(sz)}, empty{carquet_bloom_filter_create(sz)};
+    PBT_CHECK(vd, acc.f && top.f && empty.f, "create failed");
+    PBT_CHECK(vd, carquet_bloom_filter_merge(acc.f, m.f) == CARQUET_OK, "merge into a fresh filter refused");
+    PBT_CHECK(vd, carquet_bloom_filter_merge(acc.f, empty.f) == CARQUET_OK, "merge of an empty filter refused");
+    PBT_CHECK(vd, memcmp(carquet_bloom_filter_data(acc.f), rm.bytes.data(), sz) == 0, "a fresh filter after merging the union into it (and an empty filter) is not the union");
+    PBT_CHECK(vd, carquet_bloom_filter_merge(top.f, acc.f) == CARQUET_OK, "second-level merge refused");
+    for (auto &v : ins) PBT_CHECK(vd, cCheck(top.f, v), "two-level merge lost a value: a filter filled only by merging was merged on and the value is gone");
+    for (auto &v : ins2) PBT_CHECK(vd, cCheck(top.f, v), "two-level merge lost a value of the first destination");
+    PBT_CHECK(vd, memcmp(carquet_bloom_filter_data(top.f), rm.bytes.data(), sz) == 0, "two-level merge is not the union of all inserted values");
+    PBT_CHECK(vd, carquet_bloom_filter_merge(top.f, acc.f) == CARQUET_OK && memcmp(carquet_bloom_filter_data(top.f), rm.bytes.data(), sz) == 0, "merging the same filter twice changes the result");
+    // a reloaded filter as source and as destination of a merge
+    FH re{carquet_bloom_filter_from_data(ser.p, sz)}, t2{carquet_bloom_filter_create(sz)};
+    PBT_CHECK(vd, re.f && t2.f && carquet_bloom_filter_merge(t2.f, re.f) == CARQUET_OK, "merge of a reloaded filter refused");
+    for (auto &v : ins) PBT_CHECK(vd, cCheck(t2.f, v), "merge of a reloaded filter lost a value");
+    PBT_CHECK(vd, carquet_bloom_filter_merge(re.f, m.f) == CARQUET_OK && memcmp(carquet_bloom_filter_data(re.f), rm.bytes.data(), sz) == 0, "merge into a reloaded filter is not the union");
+  }
   FH odd{carquet_bloom_filter_create(sz + 32)};
   PBT_CHECK(vd, carquet_bloom_filter_merge(odd.f, a.f) != CARQUET_OK && carquet_bloom_filter_merge(a.f, odd.f) != CARQUET_OK, "merge of different sizes accepted");
   return vd;
